@@ -460,6 +460,21 @@ func (c *FuncCtx) execFor(fr *frame, n *ast.ForStmt, st *State, k func(*State)) 
 		}
 		if !condx.IsTrue() {
 			sx.assume(Not(condx))
+			// loop <n> post: consequences of invariant and exit condition, stated once in the exit state
+			for pi, po := range ls.Post {
+				var facts []*Term
+				se := c.specEnv(sx, &facts)
+				var by []*Term
+				if len(po.By) > 0 {
+					by = c.evalHints(sx, po.By, se, po.Line)
+				}
+				g := se.Bool(po.Expr)
+				c.oblige(sx, "loop-post", fmt.Sprintf("loop%d.%d", ord, pi), g, n, append(facts, by...)...).File = po.Line
+				for _, f := range facts {
+					sx.assume(f)
+				}
+				sx.assume(g)
+			}
 			exit(sx)
 		}
 	}
@@ -1363,9 +1378,26 @@ func (c *FuncCtx) proveClause(st *State, kind, detail string, cl *Clause, mkEnv 
 			k0 := Var(c.freshName(kid.Name), SInt)
 			lo, hi := env.Int(call.Args[1]), env.Int(call.Args[2])
 			env.bound[kid.Name] = IntV{k0}
-			by := c.evalHints(st, cl.By, env, cl.Line)
-			g := env.Bool(call.Args[3])
 			rng := And(Le(lo, k0), Lt(k0, hi))
+			// a directly nested forall is introduced as well, so that hints can mention both indices
+			body := call.Args[3]
+			for {
+				inner, ok := stripParens(body).(*ast.CallExpr)
+				if !ok || exprString(inner.Fun) != "forall" || len(inner.Args) != 4 {
+					break
+				}
+				kid2, ok := inner.Args[0].(*ast.Ident)
+				if !ok {
+					break
+				}
+				k1 := Var(c.freshName(kid2.Name), SInt)
+				lo2, hi2 := env.Int(inner.Args[1]), env.Int(inner.Args[2])
+				env.bound[kid2.Name] = IntV{k1}
+				rng = And(rng, Le(lo2, k1), Lt(k1, hi2))
+				body = inner.Args[3]
+			}
+			by := c.evalHints(st, cl.By, env, cl.Line)
+			g := env.Bool(body)
 			all := append(append(append([]*Term{rng}, extra...), by...), facts...)
 			for j, gj := range conjuncts(g) {
 				o := c.oblige(st, kind, fmt.Sprintf("%s.%d", detail, j), gj, at, all...)
@@ -1444,7 +1476,31 @@ func (c *FuncCtx) execRowLoop(fr *frame, n *ast.RangeStmt, rl *RowLoopSpec, ord 
 				continue
 			}
 			p := Var(c.freshName("p"), SInt)
-			c.oblige(st, "frame-before-loop", fmt.Sprintf("loop%d.%s", ord, h), Implies(And(existedAtEntry(p), outsideAll(p, rs, h)), Eq(Select(cur, p), Select(old, p))), n, facts...)
+			ante := And(existedAtEntry(p), outsideAll(p, rs, h))
+			// rows written by the row loops of this function (the earlier ones, in particular) are
+			// part of its frame, exactly as in the function-level frame obligation
+			for _, rl2 := range c.con.RowLoops {
+				j := Var(c.freshName(rl2.Var), SInt)
+				var ff []*Term
+				env := c.specEnv(c.entry, &ff)
+				env.bound[rl2.Var] = IntV{j}
+				lo, hi := env.Int(rl2.Lo), env.Int(rl2.Hi)
+				inSome := TFalse
+				for _, o := range rl2.Out {
+					if id, ok := o.(*ast.Ident); ok && c.localNamed(id.Name) {
+						continue // a local polynomial (fresh storage): not visible at entry
+					}
+					row := &ast.IndexExpr{X: &ast.SelectorExpr{X: o, Sel: ast.NewIdent("Coeffs")}, Index: ast.NewIdent(rl2.Var)}
+					sl := env.slice(row)
+					if heapName(sl.Elem) == h {
+						inSome = Or(inSome, And(Le(sl.Addr, p), Lt(p, Add(sl.Addr, sl.Len))))
+					}
+				}
+				if !inSome.IsFalse() {
+					ante = And(ante, Forall([]*Term{j}, nil, Not(And(Le(lo, j), Lt(j, hi), inSome))))
+				}
+			}
+			c.oblige(st, "frame-before-loop", fmt.Sprintf("loop%d.%s", ord, h), Implies(ante, Eq(Select(cur, p), Select(old, p))), n, facts...)
 		}
 	}
 	pre := st.clone()
@@ -1673,7 +1729,14 @@ func (c *FuncCtx) execRowLoop(fr *frame, n *ast.RangeStmt, rl *RowLoopSpec, ord 
 			if heapName(sl.Elem) != h {
 				continue
 			}
-			inSome = Or(inSome, And(Le(sl.Addr, p), Lt(p, Add(sl.Addr, sl.Len))))
+			in := And(Le(sl.Addr, p), Lt(p, Add(sl.Addr, sl.Len)))
+			// allocation model: every row of a polynomial reachable from the inputs lies below the
+			// entry watermark, so a cell at or above it is in none of them
+			var f3 []*Term
+			if outer, ok := c.specEnv(pre, &f3).Eval(&ast.SelectorExpr{X: o, Sel: ast.NewIdent("Coeffs")}).(SliceV); ok && entryDerived(outer.Addr) {
+				in = And(in, existedAtEntry(p))
+			}
+			inSome = Or(inSome, in)
 		}
 		for _, a := range rl.Assigns {
 			var f2 []*Term
@@ -1686,6 +1749,31 @@ func (c *FuncCtx) execRowLoop(fr *frame, n *ast.RangeStmt, rl *RowLoopSpec, ord 
 		exists := Not(Forall([]*Term{j}, nil, Not(And(Le(ConstI(0), j), Lt(j, length), inSome))))
 		after.assume(Forall([]*Term{p}, []*Term{Select(nh, p)}, Or(exists, Eq(Select(nh, p), Select(oldH, p)))))
 		after.heaps[h] = nh
+	}
+	if rl.Keep && len(rl.Post) > 0 {
+		// rowkeep: by the independence of the iterations (meta-argument above) every row of the range
+		// satisfies its postconditions in the state after the loop
+		tmp := after.clone()
+		j := Var(c.freshName(rl.Var), SInt)
+		tmp.declare(keyObj, IntV{j})
+		if n.Value != nil {
+			if vid, ok := n.Value.(*ast.Ident); ok && vid.Name != "_" && sl.Addr != nil {
+				obj := c.info.Defs[vid]
+				if obj == nil {
+					obj = c.info.Uses[vid]
+				}
+				tmp.declare(obj, c.elemOf(tmp, sl, j))
+			}
+		}
+		var ff []*Term
+		env := c.specEnv(tmp, &ff)
+		var posts []*Term
+		for _, cl := range rl.Post {
+			posts = append(posts, env.Bool(cl.Expr))
+		}
+		bodyT := And(append(ff, posts...)...)
+		after.assume(Forall([]*Term{j}, nil, Implies(And(Le(ConstI(0), j), Lt(j, length)), bodyT)))
+		c.assumed = append(c.assumed, fmt.Sprintf("rowloop %d (rowkeep): its per-row postconditions, proved for one generic row, are taken to hold for every row of the range in the code after the loop (same independence argument)", ord))
 	}
 	if len(after.scope) > depth {
 		after.scope = after.scope[:depth]
@@ -1769,4 +1857,19 @@ func (c *FuncCtx) inlineCall(st *State, fi *FuncInfo, recv Value, args []Value, 
 	}
 	c.assumed = append(c.assumed, "helper "+shortPkg(fi.Key)+" (no contract) executed in place")
 	return outVals
+}
+
+// localNamed: name is neither the receiver nor a parameter of the function under verification
+// (so it denotes storage that did not exist at entry).
+func (c *FuncCtx) localNamed(name string) bool {
+	if rn := recvName(c.fi.Decl); rn == name {
+		return false
+	}
+	sig := c.fi.Obj.Type().(*types.Signature)
+	for i := 0; i < sig.Params().Len(); i++ {
+		if sig.Params().At(i).Name() == name {
+			return false
+		}
+	}
+	return true
 }
